@@ -563,6 +563,7 @@ type coaLoop struct {
 	dead    *feedPanic
 	seq     int
 	probes  int
+	last    []byte // the last datagram that was not the reply to a probe (reply-construction sweep)
 }
 
 func openCoALoop(ev *env) (*coaLoop, error) { return openCoALoopVariant(ev, "") }
@@ -609,6 +610,10 @@ func openCoALoopVariant(ev *env, variant string) (*coaLoop, error) {
 	if variant != "no-handlers" {
 		srv.SetCoAHandler(p.HandleCoA)
 		srv.SetDisconnectHandler(p.HandleDisconnect)
+	}
+	if variant == "handler-text" { // handlers of the harness: reply text of the length the request names (c09_replies_test.go)
+		srv.SetCoAHandler(rpCoATextHandler)
+		srv.SetDisconnectHandler(rpDiscTextHandler)
 	}
 	// what Start does: listen, mark running, run receiveLoop on its own goroutine — here on a
 	// goroutine whose deferred guard reports a panic that unwinds the loop (process-fatal in production)
@@ -662,6 +667,7 @@ func (l *coaLoop) roundtrip(in []byte) (replies int, alive bool) {
 		respAuth(want, probe[4:20], []byte(coaSecret))
 		return bytes.Equal(want[4:20], r[4:20])
 	}
+	l.last = l.last[:0]
 	if in != nil {
 		l.c.Write(in)
 	}
@@ -689,6 +695,7 @@ func (l *coaLoop) roundtrip(in []byte) (replies int, alive bool) {
 				continue // late reply to an earlier probe
 			}
 			replies++
+			l.last = append(l.last[:0], l.buf[:n]...)
 		}
 	}
 	return replies, false
